@@ -27,8 +27,11 @@ CHECKS = {
     },
     "C14": {
         "text": ("Lean theorem (unbounded): the chroot-style resolver never leaves the root — for every tree (absolute, '..'-laden, dangling, looping links), "
-                 "every path and every fuel the location reached has plain components only (resolve_stays_inside). Correspondence/containment: copies with "
-                 "symlinks to sentinel files/directories outside both roots planted in source tree, destination tree and both path arguments; full snapshot "
+                 "every path and every fuel the location reached has plain components only (resolve_stays_inside); the name a source argument contributes below "
+                 "an existing destination directory is, for EVERY argument ('x/..', '..', 'a//b/', ...), empty or one plain separator-free component, never "
+                 "'..' (landName_plain, over the byte-level filepath.Clean/Base transcriptions; landName_unrepaired_dotdot is the F23 witness). "
+                 "Correspondence/containment: copies with symlinks to sentinel files/directories outside both roots planted in source tree, destination tree "
+                 "and both path arguments, chown/mode/times options, '..' source arguments, include/exclude patterns below destination symlinks; full snapshot "
                  "(inode, mode, owner, times, bytes, xattrs) of everything outside the destination root before/after; sentinel bytes must not appear in the copy."),
         "note": ("Trusted: Lean kernel + standard axioms; that containerd/continuity RootPath behaves like the modelled resolver and that every target is "
                  "inspected with lstat is decided by the sentinel oracle on generated placements, not by a theorem over a POSIX model."),
